@@ -2133,6 +2133,9 @@ def compile_import(compiler, expr, root, is_lazy, entries):
                 name = module_name,
                 asname = prefix if prefix != module_name else None)]
         else:
+            if not assignments:
+                compiler._syntax_error(
+                    entry[1], "the list of names to import can't be empty")
             node = asty.ImportFrom
             names = []
             for k, v in assignments:
